@@ -136,10 +136,59 @@ static int do_race(unsigned seed, int rounds) {
     return 0;
 }
 
+// life: a context tree lives through several rounds of use.  Contexts stay bound while an ancestor is reset (explicitly, or by task_group::wait /
+// run_and_wait completing), is cancelled again, is reset again ...: after every cancel_group_execution of an ancestor that returned, every context still
+// bound beneath it is cancelled; after reset() of the ancestor the ancestor itself is not cancelled.   output: MISSED a (bound descendant not cancelled) RESETBAD b
+static int do_life(unsigned seed, int rounds) {
+    std::mt19937 rng(seed);
+    long missed = 0, resetbad = 0;
+    for (int r = 0; r < rounds; ++r) {
+        // A: explicit contexts, depth 1-3 beneath `top`
+        {
+            tbb::task_group_context top(tbb::task_group_context::isolated);
+            int depth = 1 + rng() % 3; int cycles = 1 + rng() % 3;
+            std::vector<std::unique_ptr<tbb::task_group_context>> chain;
+            for (int d = 0; d < depth; ++d) chain.emplace_back(new tbb::task_group_context());
+            // bind chain[0] beneath top, chain[1] beneath chain[0], ...
+            std::function<void(int)> bind_level = [&](int d) {
+                if (d == depth) return;
+                tbb::task_group_context& parent = d == 0 ? top : *chain[d - 1];
+                tbb::parallel_for(0, 1, [&](int) { bind_here(*chain[d]); bind_level(d + 1); }, parent);
+            };
+            bind_level(0);
+            for (int cyc = 0; cyc < cycles; ++cyc) {
+                int which = rng() % (depth + 1);                                  // cancel top or one of the chain
+                tbb::task_group_context& anc = which == 0 ? top : *chain[which - 1];
+                if (cyc > 0 || rng() % 2) { for (int d = depth; d-- > 0;) chain[d]->reset(); top.reset(); }   // nothing runs in the groups now: reset is allowed
+                if (top.is_group_execution_cancelled()) resetbad++;
+                anc.cancel_group_execution();
+                for (int d = which; d < depth; ++d) if (!chain[d]->is_group_execution_cancelled()) missed++;
+            }
+        }
+        // B: a task_group whose wait() resets its context between rounds, with a long-lived child context bound beneath it in round one
+        {
+            tbb::task_group tg; tbb::task_group_context child; std::atomic<long> iters{0};
+            tg.run_and_wait([&] { bind_here(child); });
+            for (int round = 0; round < 2; ++round) {
+                std::atomic<int> started{0};
+                tg.run([&] { started = 1; tbb::parallel_for(0, 200000, [&](int) { iters++; for (volatile int k = 0; k < 50; ++k) {} }, child); });
+                while (!started.load()) std::this_thread::yield();
+                tg.cancel();
+                tg.wait();                                                        // resets tg's context
+                if (!child.is_group_execution_cancelled()) missed++;
+                child.reset();
+            }
+        }
+    }
+    std::printf("MISSED %ld RESETBAD %ld\n", missed, resetbad);
+    return 0;
+}
+
 int main(int argc, char** argv) {
     std::string m = argc > 1 ? argv[1] : "";
     if (m == "wide") return do_wide(atol(argv[2]), atol(argv[3]));
     if (m == "rand") return do_rand((unsigned)atoi(argv[2]));
     if (m == "race") return do_race((unsigned)atoi(argv[2]), 300);
+    if (m == "life") return do_life((unsigned)atoi(argv[2]), atoi(argv[3]));
     return 2;
 }
